@@ -7,11 +7,14 @@ import (
 	"time"
 
 	"github.com/zeromicro/go-zero/core/collection"
+	"github.com/zeromicro/go-zero/core/logx"
 	"github.com/zeromicro/go-zero/core/timex"
 
 	"verifsim/simharness"
 	"verifsim/simrt"
 )
+
+func init() { logx.Disable() } // panicking callbacks are recovered and logged by the wheel
 
 // C12: timing wheel fires every timer exactly once, at its due tick.
 //
@@ -44,11 +47,51 @@ type op struct {
 	steps int           // floor(delay/interval)
 	frac  time.Duration // delay = steps*interval + frac, 0 <= frac < interval
 	n     int           // opTick: number of ticks
+	act   action        // opSet: what the execute callback does when it is called with this value
+}
+
+// action is the user code run by the execute callback for one particular value: it may call back
+// into the wheel (as collection.Cache and the cache cleaner do) and it may panic.
+type actKind int
+
+const (
+	actNone        actKind = iota
+	actRearm               // SetTimer(same key, fresh value, delay) from inside the callback
+	actMoveOther           // MoveTimer(other key, delay) from inside the callback
+	actRemoveOther         // RemoveTimer(other key) from inside the callback
+)
+
+type action struct {
+	kind   actKind
+	key    int // actMoveOther / actRemoveOther: the other key
+	steps  int
+	frac   time.Duration
+	chain  int  // actRearm: the re-armed value re-arms again, this many more times
+	panics bool // the callback panics (after having done the above)
+}
+
+func (a action) String() string {
+	s := ""
+	switch a.kind {
+	case actRearm:
+		s = fmt.Sprintf(" cb:rearm(%d ticks+%v x%d)", a.steps, a.frac, a.chain+1)
+	case actMoveOther:
+		s = fmt.Sprintf(" cb:move(k%d,%d ticks+%v)", a.key, a.steps, a.frac)
+	case actRemoveOther:
+		s = fmt.Sprintf(" cb:remove(k%d)", a.key)
+	}
+	if a.panics {
+		s += " cb:panic"
+	}
+	return s
 }
 
 func (o op) String() string {
 	switch o.kind {
 	case opSet:
+		if o.act != (action{}) {
+			return fmt.Sprintf("set(k%d,v%d,%d ticks+%v%v)", o.key, o.val, o.steps, o.frac, o.act)
+		}
 		return fmt.Sprintf("set(k%d,v%d,%d ticks+%v)", o.key, o.val, o.steps, o.frac)
 	case opMove:
 		return fmt.Sprintf("move(k%d,%d ticks+%v)", o.key, o.steps, o.frac)
@@ -93,7 +136,9 @@ type fire struct{ key, val int }
 type outcome struct {
 	fire bool
 	val  int
-	next cand
+	mid  cand // state after the tick (and after a racing operation that came before the tick)
+	pos  int  // -1, or: the racing operation came after the tick and after pos callback operations
+	next cand // state at the quiescence after the tick
 }
 
 type world struct {
@@ -110,6 +155,19 @@ type world struct {
 	verified int
 	boundary bool
 	stop     bool // a violation was reported: end the run
+
+	noDemote  bool           // operations on a re-scheduled pending key may race with a tick too
+	acts      map[int]action // user code of the execute callback, by value
+	hasActOps bool           // some value carries a callback that calls back into the wheel
+	cbOps     []op           // operations issued from inside execute callbacks since the last check
+	nextCbVal int            // values created by re-arming callbacks
+	panicked  bool           // a panicking execute callback ran since the last check
+
+	drainPanics   map[int]bool // the drain callback panics for these keys
+	drainPanicked bool         // a drain callback panicked
+
+	// slow Drain followed by operations (drain_test.go)
+	sd *slowDrain
 }
 
 func (w *world) fail(class, format string, a ...any) {
@@ -135,6 +193,49 @@ func (w *world) issue(o op) {
 	}
 }
 
+// onExecute is the wheel's execute callback.  A call counts as "fired" the moment it is entered,
+// whatever the user code does afterwards (call back into the wheel, panic).
+func (w *world) onExecute(k, v any) {
+	r := w.r
+	r.Yield()
+	key, val := k.(int), v.(int)
+	w.fires = append(w.fires, fire{key, val})
+	r.Ev("fire", int64(key), int64(val))
+	a, ok := w.acts[val]
+	if !ok {
+		return
+	}
+	var o op
+	switch a.kind {
+	case actRearm:
+		nv := w.nextCbVal
+		w.nextCbVal++
+		if a.chain > 0 {
+			b := a
+			b.chain--
+			w.acts[nv] = b
+		}
+		o = op{kind: opSet, key: key, val: nv, steps: a.steps, frac: a.frac}
+		r.Probe("callback-rearms-own-key")
+	case actMoveOther:
+		o = op{kind: opMove, key: a.key, steps: a.steps, frac: a.frac}
+		r.Probe("callback-moves-other-key")
+	case actRemoveOther:
+		o = op{kind: opRemove, key: a.key}
+		r.Probe("callback-removes-other-key")
+	}
+	if a.kind != actNone {
+		w.issue(o)
+		w.cbOps = append(w.cbOps, o)
+		r.Ev("cb-op", int64(o.kind), int64(o.key), int64(o.steps))
+	}
+	if a.panics {
+		r.Probe("execute-callback-panics")
+		w.panicked = true
+		panic(fmt.Sprintf("c12: user code of the execute callback panics (k%d, v%d)", key, val))
+	}
+}
+
 func apply(c cand, o op, T int) cand {
 	switch o.kind {
 	case opSet:
@@ -152,9 +253,27 @@ func apply(c cand, o op, T int) cand {
 
 func tickOutcome(c cand, T1 int) outcome {
 	if c.pending && c.due == T1 {
-		return outcome{fire: true, val: c.val}
+		return outcome{fire: true, val: c.val, pos: -1}
 	}
-	return outcome{next: c}
+	return outcome{mid: c, next: c, pos: -1}
+}
+
+// settle computes the state at the quiescence after tick T1: the operations L issued from inside
+// execute callbacks of this tick (necessarily after the tick, in this order) are applied to x.mid,
+// with the racing client operation o inserted after x.pos of them (x.pos >= 0).  upTo < len(L)
+// stops before L[upTo].
+func settle(x outcome, o op, L []op, T1, upTo int) cand {
+	c := x.mid
+	for j := 0; j <= len(L); j++ {
+		if j == x.pos {
+			c = apply(c, o, T1)
+		}
+		if j == upTo || j == len(L) {
+			break
+		}
+		c = apply(c, L[j], T1)
+	}
+	return c
 }
 
 func addCand(cs []cand, c cand) []cand {
@@ -186,11 +305,13 @@ func (ks *keyState) origin() string {
 }
 
 // noteOp updates the classification features of a key for an operation (before it is applied).
-func (w *world) noteOp(ks *keyState, o op) {
+func (w *world) noteOp(ks *keyState, o op) { w.noteOpP(ks, o, ks.anyPending()) }
+
+func (w *world) noteOpP(ks *keyState, o op, pending bool) {
 	r := w.r
 	switch o.kind {
 	case opSet, opMove:
-		if ks.anyPending() {
+		if pending {
 			ks.resched = true
 			r.Probe("resched-pending")
 			if o.kind == opSet {
@@ -200,6 +321,9 @@ func (w *world) noteOp(ks *keyState, o op) {
 			ks.resched = false
 		} else {
 			r.Probe("move-absent")
+			if ks.gone == "drained" {
+				ks.gone = "drained/move-after-drain"
+			}
 		}
 		if o.steps > w.n {
 			r.Probe("delay>1rev")
@@ -213,7 +337,7 @@ func (w *world) noteOp(ks *keyState, o op) {
 			w.boundary = true
 		}
 	case opRemove:
-		if ks.anyPending() {
+		if pending {
 			r.Probe("remove-pending")
 		}
 		ks.resched = false
@@ -238,8 +362,15 @@ func (w *world) seqOp(o op) {
 	ks := w.keys[o.key]
 	w.noteOp(ks, o)
 	w.r.Ev("op", int64(o.kind), int64(o.key), int64(o.steps))
-	w.issue(o)
-	w.r.Quiesce()
+	if o.kind == opSet && o.act != (action{}) {
+		w.acts[o.val] = o.act
+	}
+	if w.sd != nil {
+		w.sd.opAfterDrain(o)
+	} else {
+		w.issue(o)
+		w.r.Quiesce()
+	}
 	if w.stop {
 		return
 	}
@@ -258,11 +389,19 @@ func (w *world) rawTick() bool {
 	if w.fake != nil {
 		w.fake.Tick()
 		w.r.Quiesce()
+		if len(w.fake.Chan()) != 0 && w.sd != nil {
+			// the wheel is busy handing timers to a slow drain callback
+			w.r.Probe("tick-after-drain-waits-for-slow-drain")
+			w.sd.settle(func() bool { return len(w.fake.Chan()) == 0 })
+		}
 		if len(w.fake.Chan()) != 0 {
 			w.fail("tick-not-taken", "tick %d was not consumed by the wheel at quiescence", w.T+1)
 			return false
 		}
 	} else {
+		if w.sd != nil && w.sd.release("tick") {
+			w.r.Quiesce() // a real ticker drops ticks nobody takes: let the slow drain finish first
+		}
 		target := w.t0.Add(time.Duration(w.T+1)*w.interval + w.interval/2)
 		w.r.Sleep(time.Until(target))
 		w.r.Quiesce()
@@ -289,7 +428,7 @@ func (w *world) raceRound(ops []op) {
 	// failure class would be unspecific.  Those operations are issued just before the round.
 	var racing []op
 	for _, o := range ops {
-		if ks := w.keys[o.key]; ks.resched && ks.anyPending() {
+		if ks := w.keys[o.key]; ks.resched && ks.anyPending() && !w.noDemote {
 			r.Probe("race-op-demoted")
 			w.seqOp(o)
 			if w.stop {
@@ -307,8 +446,14 @@ func (w *world) raceRound(ops []op) {
 	r.Probe("race-round")
 	byKey := map[int]op{}
 	for _, o := range ops {
+		if ks := w.keys[o.key]; ks.resched && ks.anyPending() && o.kind != opRemove {
+			r.Probe("race-op-on-rescheduled-pending-key")
+		}
 		w.noteOp(w.keys[o.key], o)
 		byKey[o.key] = o
+		if o.kind == opSet && o.act != (action{}) {
+			w.acts[o.val] = o.act
+		}
 		r.Ev("race-op", int64(o.kind), int64(o.key), int64(o.steps))
 	}
 	ts := []*simrt.Task{r.Go("tick", func() { w.fake.Tick() })}
@@ -343,21 +488,36 @@ func (w *world) checkTick(ops map[int]op) {
 		got[f.key] = append(got[f.key], f.val)
 	}
 	w.fires = w.fires[:0]
+	// operations issued by the execute callbacks of this tick, per key, in the order they were issued
+	cb := map[int][]op{}
+	for _, o := range w.cbOps {
+		cb[o.key] = append(cb[o.key], o)
+	}
+	w.cbOps = w.cbOps[:0]
+	hadPanic := w.panicked
+	w.panicked = false
 	for k, ks := range w.keys {
 		var outs []outcome
 		o, raced := ops[k]
+		L := cb[k]
 		prev := append([]cand{}, ks.cands...)
 		for _, c := range ks.cands {
 			if raced {
 				// operation before the tick
 				outs = append(outs, tickOutcome(apply(c, o, T1-1), T1))
-				// tick before the operation
-				a := tickOutcome(c, T1)
-				a.next = apply(a.next, o, T1)
-				outs = append(outs, a)
+				// tick before the operation; the operation may come before, between or after the
+				// operations the callbacks of this tick issued on the same key
+				for i := 0; i <= len(L); i++ {
+					a := tickOutcome(c, T1)
+					a.pos = i
+					outs = append(outs, a)
+				}
 			} else {
 				outs = append(outs, tickOutcome(c, T1))
 			}
+		}
+		for i := range outs {
+			outs[i].next = settle(outs[i], o, L, T1, len(L))
 		}
 		if raced {
 			var all []cand
@@ -379,9 +539,11 @@ func (w *world) checkTick(ops map[int]op) {
 			return
 		}
 		var next []cand
+		var match []outcome
 		for _, x := range outs {
 			if x.fire == (len(obs) == 1) && (!x.fire || x.val == obs[0]) {
 				next = addCand(next, x.next)
+				match = append(match, x)
 			}
 		}
 		if len(next) > 0 {
@@ -389,6 +551,26 @@ func (w *world) checkTick(ops map[int]op) {
 				w.verified++
 				ks.gone = "fired"
 				r.Probe("fire-verified")
+			}
+			for j, lo := range L {
+				pend := false
+				for _, x := range match {
+					if settle(x, o, L, T1, j).pending {
+						pend = true
+					}
+				}
+				w.noteOpP(ks, lo, pend)
+				if lo.kind == opRemove {
+					ks.gone = "removed"
+				}
+			}
+			if len(L) > 0 {
+				ks.dues = ks.dues[:0]
+				for _, c := range next {
+					if c.pending {
+						ks.dues = append(ks.dues, c.due)
+					}
+				}
 			}
 			if len(outs) > 1 && len(next) < len(ks.cands) {
 				r.Probe("race-ambiguity-resolved")
@@ -413,12 +595,17 @@ func (w *world) checkTick(ops map[int]op) {
 				}
 			}
 			for _, x := range outs {
+				// the state before the callbacks of this tick called back into the wheel
+				pre := x.mid
+				if x.pos >= 0 {
+					pre = apply(pre, o, T1)
+				}
 				if x.fire {
 					anyFire = true
-				} else if x.next.pending {
+				} else if pre.pending {
 					early = true
-					dues = append(dues, x.next.due)
-					if x.next.due-T1 == w.n {
+					dues = append(dues, pre.due)
+					if pre.due-T1 == w.n {
 						earlyRev = true
 					}
 				}
@@ -437,7 +624,7 @@ func (w *world) checkTick(ops map[int]op) {
 		}
 		// nothing fired although every candidate is due now: find out when (if ever) it fires
 		dues := append([]int{T1}, ks.dues...)
-		w.diagnoseMissed(k, ks, dues)
+		w.diagnoseMissed(k, ks, dues, hadPanic)
 		return
 	}
 	if len(got) > 0 {
@@ -448,7 +635,12 @@ func (w *world) checkTick(ops map[int]op) {
 // diagnoseMissed is entered after the verdict (key k did not fire at its due tick) to refine
 // the class of the violation: it keeps ticking, without further operations, and reports how
 // late the timer fires.
-func (w *world) diagnoseMissed(k int, ks *keyState, dues []int) {
+func (w *world) diagnoseMissed(k int, ks *keyState, dues []int, hadPanic bool) {
+	origin := ks.origin()
+	if hadPanic {
+		// the callback of another timer due at the same tick panicked
+		origin = "after-panicking-callback"
+	}
 	max := 0
 	for _, d := range dues {
 		if d > max {
@@ -471,7 +663,7 @@ func (w *world) diagnoseMissed(k int, ks *keyState, dues []int) {
 	}
 	switch {
 	case firedAt < 0:
-		w.fail(ks.origin()+":never-fires", "key k%d was due at tick %d (model %v) but did not execute then nor in the following %d ticks (%d slots)", k, due, ks.cands, limit-due, w.n)
+		w.fail(origin+":never-fires", "key k%d was due at tick %d (model %v) but did not execute then nor in the following %d ticks (%d slots)", k, due, ks.cands, limit-due, w.n)
 	default:
 		rev := false
 		for _, d := range dues {
@@ -480,9 +672,9 @@ func (w *world) diagnoseMissed(k int, ks *keyState, dues []int) {
 			}
 		}
 		if rev {
-			w.fail(ks.origin()+":late-by-one-revolution", "key k%d was due at tick %d (model %v) but executed at tick %d - exactly one revolution (%d slots) late", k, due, ks.cands, firedAt, w.n)
+			w.fail(origin+":late-by-one-revolution", "key k%d was due at tick %d (model %v) but executed at tick %d - exactly one revolution (%d slots) late", k, due, ks.cands, firedAt, w.n)
 		} else {
-			w.fail(ks.origin()+":late-other", "key k%d was due at tick %d (model %v) but executed at tick %d (%d slots)", k, due, ks.cands, firedAt, w.n)
+			w.fail(origin+":late-other", "key k%d was due at tick %d (model %v) but executed at tick %d (%d slots)", k, due, ks.cands, firedAt, w.n)
 		}
 	}
 }
@@ -508,6 +700,11 @@ func (w *world) drain(raceTick bool) {
 		r.Yield()
 		w.drained = append(w.drained, fire{k.(int), v.(int)})
 		r.Ev("drained", int64(k.(int)), int64(v.(int)))
+		if w.drainPanics[k.(int)] {
+			r.Probe("drain-callback-panics")
+			w.drainPanicked = true
+			panic(fmt.Sprintf("c12: user code of the drain callback panics (k%d)", k.(int)))
+		}
 	}
 	r.Ev("drain")
 	if raceTick {
@@ -549,6 +746,8 @@ func (w *world) drain(raceTick bool) {
 		gotF[f.key] = append(gotF[f.key], f.val)
 	}
 	w.fires = w.fires[:0]
+	w.cbOps = w.cbOps[:0] // only with a racing tick, and then only callbacks that do not call back
+	w.panicked = false
 	if len(w.drained) > 0 {
 		r.Probe("drain-nonempty")
 	}
@@ -612,6 +811,9 @@ func (w *world) drain(raceTick bool) {
 						cls = "fired-not-pending:" + ks.gone
 					case len(gotD[k]) == 0 && len(gotF[k]) == 0:
 						cls = "drain-missing"
+						if w.drainPanicked {
+							cls = "drain-missing/after-panicking-drain-callback"
+						}
 					case len(gotD[k]) == 1:
 						cls = "drain-wrong-value"
 					}
@@ -691,17 +893,27 @@ const (
 	modeSeqFake = iota
 	modeRace
 	modeSeqReal
+	modeBulk    // sequential, fake ticker, more pending timers than Drain has workers, slow Drain
+	modeCleaner // second layer: the cache cleaner's retry ladder on its own wheel (cleaner_test.go)
 )
+
+var modeNames = []string{"sequential, fake ticker", "operations racing with ticks, fake ticker", "sequential, real ticker on the virtual clock",
+	"many pending timers, slow Drain followed by operations, fake ticker", "cache cleaner retry ladder"}
 
 func body(r *simrt.Run, tier string) {
 	t := r.Tape
 	mode := modeSeqFake
-	switch m := t.Intn(10); {
+	switch m := t.Intn(12); {
 	case m < 5:
 	case m < 8:
 		mode = modeRace
-	default:
+	case m < 10:
 		mode = modeSeqReal
+	case m < 11:
+		mode = modeBulk
+	default:
+		cleanerBody(r, tier)
+		return
 	}
 	maxSlots, maxSteps, maxKeys := 12, 14, 4
 	if tier == "thorough" {
@@ -716,7 +928,83 @@ func body(r *simrt.Run, tier string) {
 	}
 	nKeys := t.Range(1, maxKeys)
 	nSteps := t.Range(1, maxSteps)
+	if mode == modeBulk {
+		// Drain hands the timers to a bounded number of workers: more pending timers than that
+		nKeys = t.Range(9, 14)
+		nSteps = t.Range(0, 4)
+	}
+	// user-code faults and callbacks that call back into the wheel: each in a part of the runs
+	pPanic := []int{0, 0, 0, 3}[t.Intn(4)]   // of 10: the execute callback panics for this value
+	pAct := []int{0, 0, 0, 3}[t.Intn(4)]     // of 10: the execute callback calls back into the wheel
+	noDemote := mode == modeRace && t.Bool() // operations racing with a tick also on re-scheduled pending keys
+	align := pPanic > 0 || pAct > 0 || mode == modeBulk
+
+	// generation-time picture of the history (which keys are probably pending, and when they are
+	// due); it only steers the workload towards several timers due at the same tick
+	genT := 0
+	genDue := make([]int, nKeys)
+	for i := range genDue {
+		genDue[i] = -1
+	}
+	steps := func(key int) int {
+		if align && t.Intn(3) == 0 {
+			var c []int
+			for k, d := range genDue {
+				if k != key && d > genT {
+					c = append(c, d-genT)
+				}
+			}
+			if len(c) > 0 {
+				return c[t.Intn(len(c))]
+			}
+		}
+		return drawSteps(t, n)
+	}
+	genApply := func(o op) {
+		switch o.kind {
+		case opSet:
+			genDue[o.key] = genT + o.steps
+		case opMove:
+			if genDue[o.key] > genT {
+				genDue[o.key] = genT + o.steps
+			}
+		case opRemove:
+			genDue[o.key] = -1
+		case opTick:
+			genT += o.n
+		}
+	}
+	genPending := func() []int {
+		var p []int
+		for k, d := range genDue {
+			if d > genT {
+				p = append(p, k)
+			}
+		}
+		return p
+	}
 	nextVal := 100
+	drawAct := func(key int) action {
+		var a action
+		if pAct > 0 && t.Intn(10) < pAct {
+			other := key
+			if nKeys > 1 {
+				other = (key + 1 + t.Intn(nKeys-1)) % nKeys
+			}
+			switch t.Intn(4) {
+			case 0, 1:
+				a = action{kind: actRearm, steps: steps(key), frac: drawFrac(t, interval), chain: []int{0, 0, 1, 3}[t.Intn(4)]}
+			case 2:
+				a = action{kind: actMoveOther, key: other, steps: steps(other), frac: drawFrac(t, interval)}
+			default:
+				a = action{kind: actRemoveOther, key: other}
+			}
+		}
+		if pPanic > 0 && t.Intn(10) < pPanic {
+			a.panics = true
+		}
+		return a
+	}
 	drawOp := func(key int, allowTick bool) op {
 		o := op{key: key}
 		v := t.Intn(12)
@@ -738,66 +1026,147 @@ func body(r *simrt.Run, tier string) {
 		case opSet:
 			o.val = nextVal
 			nextVal++
-			o.steps, o.frac = drawSteps(t, n), drawFrac(t, interval)
+			o.steps, o.frac = steps(key), drawFrac(t, interval)
+			o.act = drawAct(key)
 		case opMove:
-			o.steps, o.frac = drawSteps(t, n), drawFrac(t, interval)
+			o.steps, o.frac = steps(key), drawFrac(t, interval)
 		case opTick:
 			o.n = drawTicks(t, n)
 		}
 		return o
 	}
 	var plan []step
+	if mode == modeBulk {
+		for _, k := range t.Perm(nKeys) {
+			o := op{kind: opSet, key: k, val: nextVal, steps: steps(k), frac: drawFrac(t, interval)}
+			nextVal++
+			o.act = drawAct(k)
+			genApply(o)
+			plan = append(plan, step{ops: []op{o}})
+		}
+	}
 	for i := 0; i < nSteps; i++ {
 		if mode == modeRace && t.Intn(2) == 0 {
 			m := t.Range(1, min(3, nKeys))
 			keys := t.Perm(nKeys)[:m]
 			st := step{race: true}
 			for _, k := range keys {
-				st.ops = append(st.ops, drawOp(k, false))
+				o := drawOp(k, false)
+				genApply(o)
+				st.ops = append(st.ops, o)
 			}
+			genT++
 			plan = append(plan, st)
 			continue
 		}
-		plan = append(plan, step{ops: []op{drawOp(t.Intn(nKeys), true)}})
+		o := drawOp(t.Intn(nKeys), true)
+		genApply(o)
+		plan = append(plan, step{ops: []op{o}})
 	}
-	// 0: run out; 1: drain; 2: some ticks, then drain; 3: drain racing with a tick (race mode) / drain
-	end := []int{0, 1, 0, 2, 0, 3}[t.Intn(6)]
+	// 0: run out; 1: drain; 2: some ticks, then drain; 3: drain racing with a tick (race mode) / drain;
+	// 4: slow drain followed by operations and ticks
+	end := []int{0, 1, 0, 2, 0, 3, 4, 4}[t.Intn(8)]
 	partial := drawTicks(t, n)
 	extra := t.Intn(n + 2)
+	drainPanics := map[int]bool{} // drain callback panics for these keys
+	if pPanic > 0 && end != 0 {
+		for k := 0; k < nKeys; k++ {
+			if t.Intn(10) < pPanic {
+				drainPanics[k] = true
+			}
+		}
+	}
+	var sdPlan *slowDrainPlan
+	if mode == modeBulk {
+		end = 4
+	}
+	if end == 4 {
+		sdPlan = &slowDrainPlan{ticksBefore: 0, quiesce: t.Bool()}
+		if mode != modeBulk && t.Bool() {
+			sdPlan.ticksBefore = partial
+			genApply(op{kind: opTick, n: partial})
+		}
+		if t.Bool() {
+			// an operation directly before Drain, without waiting for the wheel to be idle again
+			o := drawOp(t.Intn(nKeys), false)
+			genApply(o)
+			sdPlan.pre = &o
+		}
+		style := t.Intn(4)
+		for k := 0; k < nKeys; k++ {
+			b := dbeh{panics: drainPanics[k]}
+			sl := []time.Duration{1, time.Millisecond, 3 * time.Second}[t.Intn(3)]
+			switch style {
+			case 0:
+				b.gate = true
+			case 1:
+				b.gate = t.Bool()
+			case 2:
+				b.sleep = sl
+			default:
+				switch t.Intn(3) {
+				case 1:
+					b.gate = true
+				case 2:
+					b.sleep = sl
+				}
+			}
+			if mode == modeSeqReal && b.sleep > 0 {
+				// on the real ticker virtual time is ticks: only gates there
+				b.sleep, b.gate = 0, true
+			}
+			sdPlan.beh = append(sdPlan.beh, b)
+		}
+		for i, m := 0, t.Range(1, 6); i < m; i++ {
+			key := t.Intn(nKeys)
+			if p := genPending(); len(p) > 0 && t.Intn(3) != 0 {
+				key = p[t.Intn(len(p))] // a key that was (probably) pending when Drain was called
+			}
+			o := drawOp(key, true)
+			sdPlan.after = append(sdPlan.after, o)
+		}
+	}
 
-	w := &world{r: r, n: n, interval: interval}
+	w := &world{r: r, n: n, interval: interval, noDemote: noDemote, acts: map[int]action{}, nextCbVal: 100000}
 	for i := 0; i < nKeys; i++ {
 		w.keys = append(w.keys, &keyState{cands: []cand{{}}, gone: "never-set"})
 	}
+	w.hasActOps = pAct > 0
 	if r.Tracing() {
-		r.Logf("mode=%d slots=%d interval=%v keys=%d end=%d partial=%d extra=%d plan=%v", mode, n, interval, nKeys, end, partial, extra, plan)
+		r.Logf("mode=%d slots=%d interval=%v keys=%d end=%d partial=%d extra=%d noDemote=%v drainPanics=%v plan=%v slowDrain=%v", mode, n, interval, nKeys, end, partial, extra, noDemote, drainPanics, plan, sdPlan)
 	}
 	var ps []string
 	for _, s := range plan {
 		ps = append(ps, s.String())
 	}
-	r.Sample(map[string]any{"mode": []string{"sequential, fake ticker", "operations racing with ticks, fake ticker", "sequential, real ticker on the virtual clock"}[mode],
-		"slots": n, "interval": interval.String(), "keys": nKeys, "history": ps, "end": []string{"run out", "drain", "ticks then drain", "drain (racing with a tick in race mode)"}[end]})
-
-	execute := func(k, v any) {
-		r.Yield()
-		w.fires = append(w.fires, fire{k.(int), v.(int)})
-		r.Ev("fire", int64(k.(int)), int64(v.(int)))
+	sample := map[string]any{"mode": modeNames[mode], "slots": n, "interval": interval.String(), "keys": nKeys, "history": ps,
+		"end": []string{"run out", "drain", "ticks then drain", "drain (racing with a tick in race mode)", "slow drain, then operations on the drained keys and ticks"}[end]}
+	if sdPlan != nil {
+		sample["slow_drain"] = sdPlan.String()
 	}
+	if len(drainPanics) > 0 {
+		sample["drain_callback_panics_for_keys"] = fmt.Sprint(drainPanics)
+	}
+	r.Sample(sample)
+
 	var err error
 	w.t0 = time.Now()
 	if mode == modeSeqReal {
 		r.Probe("real-ticker")
-		w.tw, err = collection.NewTimingWheel(interval, n, execute)
+		w.tw, err = collection.NewTimingWheel(interval, n, w.onExecute)
 	} else {
 		w.fake = timex.NewFakeTicker()
-		w.tw, err = collection.NewTimingWheelWithTicker(interval, n, execute, w.fake)
+		w.tw, err = collection.NewTimingWheelWithTicker(interval, n, w.onExecute, w.fake)
 	}
 	if err != nil {
 		r.Fail("op-error", "NewTimingWheel(%v, %d) returned %v", interval, n, err)
 		return
 	}
+	w.drainPanics = drainPanics
 	defer func() {
+		if w.sd != nil {
+			w.sd.cleanup()
+		}
 		w.tw.Stop()
 		r.Quiesce()
 	}()
@@ -819,9 +1188,13 @@ func body(r *simrt.Run, tier string) {
 	if w.stop {
 		return
 	}
-	switch end {
-	case 0:
-		if d := w.maxDue() - w.T; d > 0 {
+	runOut := func() {
+		// callbacks may re-arm: until nothing is pending any more (chains are bounded)
+		for i := 0; i < 64 && !w.stop; i++ {
+			d := w.maxDue() - w.T
+			if d <= 0 {
+				break
+			}
 			w.seqTicks(d)
 		}
 		if !w.stop {
@@ -832,19 +1205,33 @@ func body(r *simrt.Run, tier string) {
 				}
 			}
 		}
+	}
+	switch end {
+	case 0:
+		runOut()
 	case 2:
 		w.seqTicks(partial)
 		if !w.stop {
 			w.drain(false)
 		}
 	case 3:
-		race := mode == modeRace
+		// a callback of the racing tick that calls back into the wheel would be an operation
+		// racing with Drain, which the statement does not order: no racing tick then
+		race := mode == modeRace && !w.hasActOps
 		for _, ks := range w.keys {
-			if ks.resched && ks.anyPending() {
+			if ks.resched && ks.anyPending() && !w.noDemote {
 				race = false // see raceRound
 			}
 		}
 		w.drain(race)
+	case 4:
+		w.seqTicks(sdPlan.ticksBefore)
+		if !w.stop {
+			w.slowDrainThenOps(sdPlan)
+		}
+		if !w.stop {
+			runOut() // timers set after Drain fire normally
+		}
 	default:
 		w.drain(false)
 	}
@@ -861,7 +1248,7 @@ func config(t *simrt.Tape, tier string) simrt.Config {
 	// The property is indexed by ticks, not by time: virtual-time stalls inside the wheel would
 	// only blur which tick an observation belongs to, so only context switches are injected.
 	sw := []int{20, 60, 150, 300, 500}[t.Intn(5)]
-	return simrt.Config{SwitchPerMille: sw, MaxSteps: 60000, MaxVirtual: 2000 * time.Hour}
+	return simrt.Config{SwitchPerMille: sw, MaxSteps: 150000, MaxVirtual: 2000 * time.Hour}
 }
 
 func TestSim(t *testing.T) {
